@@ -110,8 +110,9 @@ func genVersion(t *rapid.T, label string) GenVersion {
 // ---------- split oracle ----------
 
 type SplitCase struct {
-	V        GenVersion `json:"v"`
-	Schema   string     `json:"schema"`
+	V          GenVersion `json:"v"`
+	Schema     string     `json:"schema"`
+	PackageLeg bool       `json:"package_leg,omitempty"` // also build the five packages when the version is used verbatim
 	Explicit struct {
 		Pre  string `json:"pre"`
 		Meta string `json:"meta"`
@@ -146,6 +147,48 @@ func checkSplit(sc *SplitCase) []Violation {
 		}
 		vs.add(clause, "", "version %q (schema %q, explicit prerelease %q, metadata %q) -> version %q prerelease %q metadata %q; expected %q %q %q",
 			sc.V.Text, sc.Schema, sc.Explicit.Pre, sc.Explicit.Meta, got[0], got[1], got[2], want[0], want[1], want[2])
+	}
+	// a verbatim version is what every package states (no separate components configured, no blanks in the string)
+	verbatim := !(sc.Schema != "none" && sc.V.IsSem)
+	if verbatim && sc.Explicit.Pre == "" && sc.Explicit.Meta == "" && !strings.ContainsAny(sc.V.Text, " \t") && sc.PackageLeg {
+		bc := versionOnly(c.Meta)
+		bc.Formats = AllFormats
+		bc.Meta.Name = "ver"
+		err := bc.withRoot(func(root string) error {
+			for _, f := range bc.Formats {
+				out, err := bc.BuildOne(root, f)
+				if err != nil {
+					continue // a packager may refuse a string that is not a version in its format: loud, not wrong
+				}
+				d, err := Decode(f, out)
+				if d == nil || err != nil {
+					vs.add("C14.verbatim.decode", f, "%v", err)
+					continue
+				}
+				dm, err := decodeMeta(f, d)
+				if err != nil {
+					continue
+				}
+				want := sc.V.Text
+				got := dm.Version
+				switch f {
+				case "archlinux":
+					want += "-1"
+				case "apk":
+					// apk may only append suffixes
+					if strings.HasPrefix(got, want) {
+						got = want
+					}
+				}
+				if got != want {
+					vs.add("C14.verbatim.package", f, "version %q (schema %q) is to be used verbatim, the %s package states %q", sc.V.Text, sc.Schema, f, dm.Version)
+				}
+			}
+			return nil
+		})
+		if err != nil {
+			panic(err)
+		}
 	}
 	// WithDefaults applied again (as the CLI does on the Get() result) must be stable
 	info, err := cfg.Get("deb")
@@ -594,7 +637,11 @@ func TestC14(t *testing.T) {
 			if rapid.IntRange(0, 2).Draw(rt, fmt.Sprintf("xmeta?%d", k)) == 0 {
 				sc.Explicit.Meta = genDotted(rt, fmt.Sprintf("xmeta%d", k), metaIdent)
 			}
+			sc.PackageLeg = k%5 == 0
 			labels := []string{"split", "schema:" + sc.Schema}
+			if sc.PackageLeg && !(sc.Schema != "none" && sc.V.IsSem) {
+				labels = append(labels, "verbatim-package-leg")
+			}
 			if sc.V.NearHow != "" {
 				labels = append(labels, "near-miss:"+sc.V.NearHow)
 			}
